@@ -45,13 +45,11 @@ def replaceArgs : List Arg → List NewArg → List Arg
 /-- `add_arg_to_call(node, name, value)` -/
 def addArg (args : List Arg) (name value : String) : List Arg := args ++ [mkKw name value]
 
-/-- `update_call_target(node, new_target, new_func, replacement_args)`: (callee text, args) -/
-def callTarget (callName : String) (args : List Arg) (newTarget : String) (newFunc : Option String)
-    (replacement : Option (List Arg)) : String × List Arg :=
-  (newTarget ++ "." ++ newFunc.getD callName,
-   match replacement with
-   | some r => if r.isEmpty then args else r      -- `replacement_args if replacement_args else original_node.args`
-   | none => args)
+/-- the argument list `update_call_target` starts from -/
+def callTargetArgs (args : List Arg) (replacement : Option (List Arg)) : List Arg :=
+  match replacement with
+  | some r => if r.isEmpty then args else r      -- `replacement_args if replacement_args else original_node.args`
+  | none => args
 
 /-- argument classes for the call-site ordering rule -/
 inductive Cls where
@@ -87,6 +85,13 @@ def updateArgTarget (newArgs : List Arg) : List Arg := parenGens newArgs
 
 /-- `add_arg_to_call(node, name, value)` as it is now -/
 def addArgToCall (args : List Arg) (name value : String) : List Arg := parenGens (addArg args name value)
+
+/-- `update_call_target(node, new_target, new_func, replacement_args)`: (callee text, args). `guard = false` is
+the code before the fix (a bare generator of the original call was put next to the new first argument as it was). -/
+def callTarget (callName : String) (args : List Arg) (newTarget : String) (newFunc : Option String)
+    (replacement : Option (List Arg)) (guard : Bool := true) : String × List Arg :=
+  (newTarget ++ "." ++ newFunc.getD callName,
+   if guard then parenGens (callTargetArgs args replacement) else callTargetArgs args replacement)
 
 /-- the ordering rule plus: a bare generator is only legal as the sole argument -/
 def wfGen (args : List Arg) : Bool := wf args && (decide (args.length ≤ 1) || args.all (!·.gen))
